@@ -10,8 +10,9 @@ The loop over the rows (`Render.range1`) and over the cells of a row (`Render.ra
   renderer comes back with its field `table` reset.
 * Same panic outcomes: a row with more cells than the table has columns (`widths[i]` in the first pass) and a row without cells
   (`row.cells[0]`) end in Go's `index out of range` exactly where the model answers `panic`.
-* Stated assumptions: `Color = false` (colour on is outside the model) and `WidthsOK`: no column wider than 10^6 — beyond that `fmt`
-  refuses the width of `%*s` and the NUMBER cells of such a column read `%!(BADWIDTH)…` (`renderCell_num_wide`), where the model pads.
+* Stated assumption: `Color = false` (colour on is outside the model).  The former second assumption `WidthsOK` (no column wider than
+  10^6, the limit of `fmt`'s `%*s`) is gone: since the /repo fix `pad the number cells of a text table without fmt's width limit` the
+  number cells are padded by `table.padLeft`, which is the model's `padLeft` for every width (`padLeft_agrees`).
 -/
 namespace Knut.FactsAgree.TransTableRender
 open Knut Knut.GoSem
@@ -25,7 +26,7 @@ theorem getElem_natsGo (ws : List Nat) (k : Nat) (h : k < (natsGo ws).length) :
 
 /-- the loop over the cells from position `|done|` on writes the model's `renderCells` of the remaining cells and widths -/
 theorem range2_agrees (tr : table.TextRenderer) (st : Color.State) (ff : Fmt.FloatFmt) (hst : st.NoColor = true)
-    (R : table.Row) (row : List Table.Cell) (hR : RowRel R row) (ws : List Nat) (hws : ∀ x ∈ ws, x ≤ 1000000) :
+    (R : table.Row) (row : List Table.Cell) (hR : RowRel R row) (ws : List Nat) :
     ∀ (rest done : List Table.Cell) (wrest wpre : List Nat) (w : String), row = done ++ rest → ws = wpre ++ wrest →
       wpre.length = done.length →
       table.TextRenderer.Render.range2 st ff tr (natsGo ws) R (rest.map cellGo) (done.length : Int) w
@@ -51,8 +52,7 @@ theorem range2_agrees (tr : table.TextRenderer) (st : Color.State) (ff : Fmt.Flo
       have hlen' : ((done.length : Nat) : Int).toNat < (natsGo ws).length := by rw [hw]; simp [hlen]
       have hget : (natsGo ws)[((done.length : Nat) : Int).toNat] = (x : Int) := by
         rw [getElem_natsGo]; simp [hw, ← hlen]
-      have hx : x ≤ 1000000 := hws x (by rw [hw]; simp)
-      simp only [index_ok _ _ (Int.natCast_nonneg _) hlen', hget, renderCell_agrees tr c x hx w st ff hst, Outcome.bind]
+      simp only [index_ok _ _ (Int.natCast_nonneg _) hlen', hget, renderCell_agrees tr c x w st ff hst, Outcome.bind]
       have hcells : R.cells = (done ++ c :: rest).map cellGo := by rw [← hrow]; exact hR
       have hdone : done ++ c :: rest = (done ++ [c]) ++ rest := by simp
       have hdl : ((done.length : Nat) : Int) + 1 = (((done ++ [c]).length : Nat) : Int) := by simp
@@ -103,7 +103,7 @@ theorem getLast_cells (c0 : Table.Cell) (cs : List Table.Cell) :
 
 /-- one row: `"| "`/`"+-"`, the cells, `" |\n"`/`"-+\n"` -/
 theorem row_agrees (tr : table.TextRenderer) (st : Color.State) (ff : Fmt.FloatFmt) (hst : st.NoColor = true)
-    (ws : List Nat) (hws : ∀ x ∈ ws, x ≤ 1000000) (R : table.Row) (row : List Table.Cell) (hR : RowRel R row)
+    (ws : List Nat) (R : table.Row) (row : List Table.Cell) (hR : RowRel R row)
     (rows : List table.Row) (w : String) :
     table.TextRenderer.Render.range1 st ff tr (natsGo ws) (R :: rows) w
       = match Table.renderRow (rendOf tr) ws row with
@@ -125,7 +125,7 @@ theorem row_agrees (tr : table.TextRenderer) (st : Color.State) (ff : Fmt.FloatF
             | some s => Outcome.ok (Flow.next (w0 ++ String.ofList s))
             | none => Outcome.panic idxPanic := by
       intro w0
-      have := range2_agrees tr st ff hst R (c0 :: cs) hR ws hws (c0 :: cs) [] ws [] w0 rfl rfl rfl
+      have := range2_agrees tr st ff hst R (c0 :: cs) hR ws (c0 :: cs) [] ws [] w0 rfl rfl rfl
       rw [hc]
       simpa using this
     have hlast : index R.cells (len R.cells - 1)
@@ -142,7 +142,7 @@ theorem row_agrees (tr : table.TextRenderer) (st : Color.State) (ff : Fmt.FloatF
           (congr 1; apply String.ext; simp [String.append_assoc])
 
 theorem rows_agrees (tr : table.TextRenderer) (st : Color.State) (ff : Fmt.FloatFmt) (hst : st.NoColor = true)
-    (ws : List Nat) (hws : ∀ x ∈ ws, x ≤ 1000000) : ∀ (rows : List (List Table.Cell)) (Rs : List table.Row) (w : String),
+    (ws : List Nat) : ∀ (rows : List (List Table.Cell)) (Rs : List table.Row) (w : String),
     RowsRel Rs rows →
     table.TextRenderer.Render.range1 st ff tr (natsGo ws) Rs w
       = match Table.renderRows (rendOf tr) ws rows with
@@ -160,7 +160,7 @@ theorem rows_agrees (tr : table.TextRenderer) (st : Color.State) (ff : Fmt.Float
     cases Rs with
     | nil => exact absurd h (by simp [RowsRel])
     | cons R Rs =>
-      rw [row_agrees tr st ff hst ws hws R row h.1]
+      rw [row_agrees tr st ff hst ws R row h.1]
       simp only [Table.renderRows]
       cases Table.renderRow (rendOf tr) ws row with
       | none => rfl
@@ -188,10 +188,6 @@ theorem Render_unfold (r0 : table.TextRenderer) (t : table.Table) (w : String) (
                 | Flow.next st60 =>
                   Outcome.ok ({ r with table := (GoZero.zero : table.Table) }, (Writer.Write st60 "\n").1, (Writer.Write st60 "\n").2.2))))))) := rfl
 
-/-- no column of the rendered table is wider than 10^6 (beyond that `fmt` refuses the width of `%*s`) -/
-def WidthsOK (R : Table.Renderer) (t : Table.Table) : Prop :=
-  ∀ ws, Table.finalWidths R t = some ws → ∀ x ∈ ws, x ≤ 1000000
-
 theorem widthsPass1_length (R : Table.Renderer) (rows : List (List Table.Cell)) (ws ws' : List Nat)
     (h : Table.widthsPass1 R ws rows = some ws') : ws'.length = ws.length :=
   (Table.le2_length (Table.widthsPass1_spec R rows ws ws' h).1).symm
@@ -199,7 +195,7 @@ theorem widthsPass1_length (R : Table.Renderer) (rows : List (List Table.Cell)) 
 /-- **`TextRenderer.Render` = `Table.renderText`**: the same bytes, the same panic outcomes — for every Go table that stands for the
 model table (`TableRel`: the same column groups and cells, any capacities) -/
 theorem Render_agrees_rel (tr : table.TextRenderer) (T : table.Table) (t : Table.Table) (hT : TableRel T t) (w : String)
-    (cs : Color.State) (ff : Fmt.FloatFmt) (hc : tr.Color = false) (hw : WidthsOK (rendOf tr) t) :
+    (cs : Color.State) (ff : Fmt.FloatFmt) (hc : tr.Color = false) :
     table.TextRenderer.Render tr T w cs ff
       = match Table.renderText (rendOf tr) t with
         | .ok s => Outcome.ok ({ tr with table := GoZero.zero }, w ++ String.ofList s, none)
@@ -214,21 +210,19 @@ theorem Render_agrees_rel (tr : table.TextRenderer) (T : table.Table) (t : Table
   rw [hR] at h1
   simp only [hcols, h1]
   unfold Table.renderText Table.renderLines Table.finalWidths
-  unfold WidthsOK Table.finalWidths at hw
   cases hp1 : Table.widthsPass1 (rendOf tr) (List.replicate t.width 0) t.rows with
   | none => rfl
   | some ws1 =>
-    simp only [hp1] at hw ⊢
+    simp only [hp1]
     have hl1 : ws1.length ≤ t.columns.length := by
       have := widthsPass1_length _ _ _ _ hp1
       simp [Table.Table.width] at this
       omega
     obtain ⟨gm, hg, hrel⟩ := pass2_agrees t.columns ws1 hl1
     simp only [hg, pass3_agrees gm t.columns ws1 hrel]
-    have hws := hw _ rfl
     have hst : ({ cs with NoColor := !({ tr with table := T } : table.TextRenderer).Color } : Color.State).NoColor = true := by
       simp [hc]
-    have h4 := rows_agrees { tr with table := T } _ ff hst _ hws t.rows T.rows w hT.2
+    have h4 := rows_agrees { tr with table := T } _ ff hst (Table.widthsPass2 t.columns ws1) t.rows T.rows w hT.2
     rw [hR] at h4
     simp only [h4]
     cases Table.renderRows (rendOf tr) (Table.widthsPass2 t.columns ws1) t.rows with
@@ -243,12 +237,12 @@ theorem Render_agrees_rel (tr : table.TextRenderer) (T : table.Table) (t : Table
 
 /-- `Render_agrees_rel` for the Go table `tableGo t` (what the builder methods make of `t`: `TransTableBuild`) -/
 theorem Render_agrees (tr : table.TextRenderer) (t : Table.Table) (w : String) (cs : Color.State) (ff : Fmt.FloatFmt)
-    (hc : tr.Color = false) (hw : WidthsOK (rendOf tr) t) :
+    (hc : tr.Color = false) :
     table.TextRenderer.Render tr (tableGo t) w cs ff
       = match Table.renderText (rendOf tr) t with
         | .ok s => Outcome.ok ({ tr with table := GoZero.zero }, w ++ String.ofList s, none)
         | .panic _ => Outcome.panic idxPanic :=
-  Render_agrees_rel tr (tableGo t) t (tableGo_rel t) w cs ff hc hw
+  Render_agrees_rel tr (tableGo t) t (tableGo_rel t) w cs ff hc
 
 /-- non-vacuity: a 2-column table with a separator row, rendered through the translated code -/
 example : table.TextRenderer.Render ⟨GoZero.zero, false, false, 2⟩
